@@ -19,3 +19,4 @@ def run(chk):
     F.rule_obfuscation(chk, repo, "C13.7")
     F.rule_remove_both_halves(chk, repo, "C13.8")
     F.rule_location_agreement(chk, repo, "C13.9")
+    F.rule_memory_copy(chk, repo, "C13.10")
